@@ -162,6 +162,29 @@ def run_chunked(args, data, chunk, env=None, timeout=60, cwd=None, empty_after=N
     return rc, out, err
 
 
+def clean_stale_work():
+    """scratch files and directories are named after the process that made them; what belongs to a process that is gone
+    (a run that was interrupted, or ended early on a violation) is removed - a C03 batch directory is about 1 GB"""
+    import re
+    import shutil
+    try:
+        names = os.listdir(WORK)
+    except OSError:
+        return
+    for n in names:
+        m = re.search(r'-(\d+)(\.[a-z]+)?$', n)
+        if not m or os.path.exists('/proc/%s' % m.group(1)):
+            continue
+        p = os.path.join(WORK, n)
+        try:
+            if os.path.isdir(p) and not os.path.islink(p):
+                shutil.rmtree(p, ignore_errors=True)
+            else:
+                os.unlink(p)
+        except OSError:
+            pass
+
+
 def child_setup():
     """preexec_fn for every process the checks start: die with the parent, bounded CPU time"""
     import ctypes
